@@ -655,7 +655,7 @@ func resultInterval(c *ssa.Call, idx int, depth int) (Itv, bool) {
 		return *m, true
 	}
 	resultIntervalMemo[key] = nil
-	e2 := &IntEnv{}
+	e2 := &IntEnv{SameVal: sameQuietFieldLoad}
 	var hull Itv
 	first := true
 	for _, ret := range returnsOf(h) {
@@ -675,4 +675,33 @@ func resultInterval(c *ssa.Call, idx int, depth int) (Itv, bool) {
 	}
 	resultIntervalMemo[key] = &hull
 	return hull, true
+}
+
+// sameQuietFieldLoad: a and b are loads of the same field of the same object in a function that neither stores to that
+// field nor calls anything but builtins (a small accessor: `switch { case x.f <= 0: …; case x.f < min: …; default: return x.f }`).
+func sameQuietFieldLoad(a, b ssa.Value) bool {
+	la, ok1 := stripIntConv(a).(*ssa.UnOp)
+	lb, ok2 := stripIntConv(b).(*ssa.UnOp)
+	if !ok1 || !ok2 || la.Op != token.MUL || lb.Op != token.MUL {
+		return false
+	}
+	fa, ok1 := la.X.(*ssa.FieldAddr)
+	fb, ok2 := lb.X.(*ssa.FieldAddr)
+	if !ok1 || !ok2 || fa.X != fb.X || fa.Field != fb.Field || la.Parent() == nil || la.Parent() != lb.Parent() {
+		return false
+	}
+	quiet := true
+	allInstrs(la.Parent(), func(in ssa.Instruction) {
+		switch x := in.(type) {
+		case *ssa.Store:
+			if f2, ok := x.Addr.(*ssa.FieldAddr); ok && f2.Field == fa.Field && types.Identical(f2.X.Type(), fa.X.Type()) {
+				quiet = false
+			}
+		case ssa.CallInstruction:
+			if _, isB := x.Common().Value.(*ssa.Builtin); !isB {
+				quiet = false
+			}
+		}
+	})
+	return quiet
 }
